@@ -191,12 +191,12 @@ fn main() {
         u8_hsl_total(c, r);
     }));
     // float RGB grid + two-equal planes + sextant boundaries
-    let n: u64 = if quick { 33 } else { 97 };
+    let n: u64 = if quick { 65 } else { 129 };
     rep.merge(par_range(&cfg, n * n * n, |i, r| {
         let g = |k: u64| k as f32 / (n - 1) as f32;
         f32_rgb_roundtrip([g(i % n), g(i / n % n), g(i / n / n)], r);
     }));
-    let m: u64 = if quick { 101 } else { 401 };
+    let m: u64 = if quick { 257 } else { 1025 };
     rep.merge(par_range(&cfg, m * m * 6, |i, r| {
         // points on the six sextant boundaries (two channels equal, or one at max/min) and just off them
         let (a, b, k) = ((i % m) as f32 / (m - 1) as f32, (i / m % m) as f32 / (m - 1) as f32, i / m / m);
@@ -216,7 +216,7 @@ fn main() {
     let mut hs: Vec<f32> = (0..=96).map(|k| k as f32 / 96.0).collect();
     for k in 0..=6 { let x = k as f32 / 6.0; for d in [-2i32, -1, 1, 2] { let y = f32::from_bits((x.to_bits() as i32 + d).max(0) as u32); if (0.0..=1.0).contains(&y) { hs.push(y); } } }
     for k in 0..1000 { hs.push(k as f32 * 0.001 + 0.0005); }
-    let sl: u64 = if quick { 33 } else { 129 };
+    let sl: u64 = if quick { 65 } else { 257 };
     let nh = hs.len() as u64;
     rep.merge(par_range(&cfg, nh * sl * sl, |i, r| {
         let g = |k: u64| k as f32 / (sl - 1) as f32;
